@@ -529,6 +529,7 @@ class C13(core.Check):
         "against the geometry given at the start), variants (positions typed by hand: lists / tuples, whole numbers as "
         "ints), micro (the lattice with 0.05..0.2 mm cells), rejected (link candidates whose follower is no grid point "
         "are refused, the error is caught, then optimize), "
+        "nearideal (millimetre-sized sketches with only the clamped vertices 1e-5..9e-5 of a cell off: negative summed quality), "
         "boundary (0 iterations, no clamps, auto_optimize; 0 iterations with the report on), defaults (optimize() without "
         "arguments), driver (no optimiser run: a real IterationDriver fed with begin / end_iteration calls - limits -1..20, "
         "tolerances incl. 0, negative, > 1, equal qualities, differences below VSMALL, worse iterations, start quality 0, "
@@ -932,6 +933,48 @@ class C13(core.Check):
         )
         return case
 
+    def _gen_nearideal(self, rng: random.Random) -> dict:
+        """round 6b (tester change q3): an almost ideal, millimetre-sized sketch.  The summed quality of such a grid is
+        NEGATIVE (the aspect term of a perfect quad is a hair below zero, -3.6e-3 per quad at 1 mm, -3.6e-2 at 0.1 mm),
+        so everything that looks at the sign of a quality ratio is exercised; only the clamped vertices are off their
+        lattice position, by 1e-5 .. 9e-5 of a cell.  Clamp types whose constructor finds its parameters exactly
+        (as in `micro`), SLSQP / L-BFGS-B mostly: on geometry this small they step far too long, end somewhere much
+        worse and have to be rolled back."""
+        scale = rng.choice([1e-3, 1e-3, 5e-4, 2e-4, 1e-4])
+        dims = rng.choice([[2, 2, 0], [2, 2, 0], [3, 2, 0], [2, 1, 0], [3, 3, 0]])
+        case: Dict[str, Any] = {"kind": "sketch", "dims": dims, "frame": rng.choice(list(FRAMES)), "stream": "nearideal", "scale": scale}
+        lat = lattice_points(case)
+        interior = [p for p in lat if 0 < p[0] < dims[0] and 0 < p[1] < dims[1]]
+        boundary = [p for p in lat[1:] if p not in interior]
+        chosen = [rng.choice(interior)] if interior else [rng.choice(boundary)]
+        if rng.random() < 0.35:
+            chosen.append(rng.choice([p for p in (interior + boundary) if p not in chosen]))
+        jitter = {p: [0.0, 0.0, 0.0] for p in lat}
+        for p in chosen:
+            jitter[p] = [rng.choice([-1, 1]) * rng.randint(1, 9) * 1e-5, rng.choice([-1, 1]) * rng.randint(1, 9) * 1e-5, 0.0]
+        clamps = []
+        for at in chosen:
+            t = rng.choice(["plane", "plane", "line"])
+            spec: Dict[str, Any] = {"at": list(at), "type": t}
+            if t == "plane":
+                spec["normal"] = [0.0, 0.0, 1.0]
+            else:
+                spec.update({"dir": [rng.choice([-1.0, 1.0, 0.5]), rng.choice([-1.0, 0.5, 1.0]), 0.0], "a": 0.0, "b": scale,
+                             "from_vertex": True, "bounds": [-rng.randint(2, 4) / 8 * scale, rng.randint(2, 4) / 8 * scale]})
+            clamps.append(spec)
+        case.update(
+            {
+                "jitter": [jitter[p] for p in lat],
+                "clamps": sorted(clamps, key=lambda c: c["at"]),
+                "links": [],
+                "method": rng.choice(["SLSQP", "SLSQP", "SLSQP", "L-BFGS-B", "Nelder-Mead", "Powell"]),
+                "max_iterations": rng.choice([1, 2, 3]),
+                "tolerance": 0.1,
+                "np_seed": rng.randint(0, 2**31 - 1),
+            }
+        )
+        return case
+
     def _gen_rejected(self, rng: random.Random, tier: str) -> dict:
         """round 4: behaviour after a caught exception.  A valid case; in addition the caller offers one or two link
         candidates whose follower is no point of the grid, add_link refuses them (InvalidLinkError, caught) and the
@@ -1017,6 +1060,7 @@ class C13(core.Check):
         for _ in range(1 if tier == "quick" else 5):
             cases += self._gen_boundary(rng, tier)
         # round 6 (drawn last: the cases above are the ones earlier rounds saw for the same seed)
+        cases += [self._gen_nearideal(rng) for _ in range(6 if tier == "quick" else 60)]
         cases += [self._gen_defaults(rng, tier) for _ in range(1 if tier == "quick" else 10)]
         c = self._gen_valid(rng, tier, "boundary")
         c.update({"max_iterations": 0, "report": True})
@@ -1407,7 +1451,8 @@ class C13(core.Check):
         got = c["summary"]
         if got != want and [float(x) for x in got[:3]] != [float(x) for x in want[:3]]:
             return f"summary line of optimize(): printed {got}, model {want}"
-        if got[3] != want[3] and abs(float(rel) * 100 % 1 - 0.5) > 1e-6:
+        z = lambda x: "0" if x == "-0" else x  # 0.0 / (negative start quality) prints as -0%
+        if z(got[3]) != z(want[3]) and abs(float(rel) * 100 % 1 - 0.5) > 1e-6:
             return f"summary line of optimize(): relative improvement printed {got[3]}%, model {want[3]}%"
         return None
 
